@@ -14,4 +14,8 @@ func init() {
 	mut("C18", "inner-max-shadowed", "trafficshape/conn.go", "\t\t\t\tmax = min(rem, max)\n", "\t\t\t\tmax := min(rem, max)\n", "C18.R8", "advanced")
 	twin("C18", "advance-by-reported-count", "trafficshape/conn.go", "\t\ttotal += n\n\n\t\tb = b[max:]\n", "\t\ttotal += n\n\n\t\tb = b[n:]\n")
 	mut("C18", "close-early-return", "trafficshape/conn.go", "\t// The per-URL buckets are created for this connection alone; each owns a\n\t// ticker and a goroutine.\n\tfor _, b := range c.LocalBuckets {", "\tif err := c.conn.SetDeadline(time.Now()); err != nil {\n\t\treturn err\n\t}\n\tfor _, b := range c.LocalBuckets {", "C18.R7", "every exit")
+	mut("C18", "shaping-for-invalid-range", "proxy.go", "rangeStart := proxyutil.GetRangeStart(res); rangeStart > -1 {", "rangeStart := proxyutil.GetRangeStart(res); rangeStart >= -1 {", "C18.R5", "valid single range")
+	mut("C18", "throttle-at-start-not-applied", "proxy.go", "\t\t\t\t\tif ptsconn.Context.ThrottleContext.ThrottleNow {\n", "\t\t\t\t\tif ptsconn.Context.ThrottleContext.ThrottleNow && rangeStart == 0 {\n\t\t\t\t\t\tlog.Debugf(\"trafficshape: throttled from the start\")\n\t\t\t\t\t}\n\t\t\t\t\tif false {\n", "C18.R5", "throttled from its first byte")
+	mut("C18", "throttle-looked-up-at-zero", "proxy.go", "ptsconn.GetCurrentThrottle(rangeStart)", "ptsconn.GetCurrentThrottle(0)", "C18.R5", "ThrottleContext is looked up")
+	twin("C18", "range-test-as-not-negative", "proxy.go", "rangeStart := proxyutil.GetRangeStart(res); rangeStart > -1 {", "rangeStart := proxyutil.GetRangeStart(res); rangeStart >= 0 {")
 }
